@@ -2,7 +2,7 @@ from vdriver import Job
 
 LEVEL = "other"
 TECHNIQUE = "bounded inductive contract check (CBMC) on the real Tree.c over every red-black shape up to a node bound, with the colour/parent packing accessors replaced by a two-field model whose own contracts are discharged separately"
-LEVEL_TEXT = ("Every red-black shape (with colouring) of up to 6 nodes (thorough 8) is emitted by an enumerator that is validated on every run (each shape must satisfy the "
+LEVEL_TEXT = ("Every red-black shape (with colouring) of up to 6 nodes (thorough 8; insertion also on every 7-node shape) is emitted by an enumerator that is validated on every run (each shape must satisfy the "
               "red-black predicate as the first assertion of its case, and the number of shapes per size must equal an independent dynamic-programming count); on each shape "
               "set runs for every present key and every gap, rem and get for every present key and a gap, plus full forward/backward iteration and clear-and-refill, with symbolic "
               "values. After each operation the tree must again be a valid red-black tree with the right bindings. Rank keys lose no generality because control flow depends on keys only "
